@@ -79,12 +79,20 @@ def conf_expand(acc, batch, last=False, keys=None, values=None, only_flags=None)
                 args = ["config", "unset", a[1]]
             with W.Session(world) as s:
                 cwd = os.path.join(s.proj, "nested", "dir") if nested else None
+                # the project sits below a directory that has a configuration file of its own (another project): that file is never read
+                # for this project and never written
+                outer_path = os.path.join(s.dir, ".gwfconf.json")
+                outer_text = json.dumps({"outer_only": "from the directory above", "backend": "sge", "a": "outer"})
+                with open(outer_path, "w") as f:
+                    f.write(outer_text)
                 r = s.gwf(list(flags) + args, cwd=cwd)
                 other = "a" if a[1] != "a" else "a.b"
                 g1 = s.gwf(list(flags) + ["config", "get", a[1]], cwd=cwd)
                 g2 = s.gwf(["config", "get", other], cwd=None if nested else os.path.join(s.proj, "nested", "dir"))
-                acc.extra["invocations"] += 3
+                g3 = s.gwf(["config", "get", "outer_only"], cwd=cwd)
+                acc.extra["invocations"] += 4
                 snap = s.snapshot()
+                outer_after = open(outer_path).read() if os.path.exists(outer_path) else None
             case = dict(kind="conf", trace=trace + [list(a)], nested=nested, flags=list(flags))
             problems = []
             if r.exit_code != 0 or r.crashed():
@@ -92,6 +100,10 @@ def conf_expand(acc, batch, last=False, keys=None, values=None, only_flags=None)
             got = snap.conf if snap.conf is not None else {}
             if got != ref2:
                 problems.append(f"file {got!r} expected {ref2!r}")
+            if outer_after != outer_text:
+                problems.append(f"the configuration file of the directory above the project was changed: {outer_after!r}")
+            if g3.exit_code != 0 or g3.stdout.rstrip("\n") != "<not set>":
+                problems.append(f"`config get outer_only` printed {g3.stdout.rstrip()!r} (a key that only the configuration file of the directory above has)")
             stray = [p for p in snap.files if p.endswith(".gwfconf.json")]
             if stray:
                 problems.append(f"configuration file written outside the project root: {stray}")
